@@ -5,9 +5,11 @@ sets a raw-capture flag ends in the builder that clears it; flags are written no
 the capture routines exactly when their flag is set and appends what they return unfiltered unless blank; Tokenizer.is_blank keeps
 WS tokens while _proc_macro is set (E1 postcondition), so a subprocess macro sees its spacing; the grammar passes the MACRO_PARAM
 token strings to macro_call / handle_with_macro_stmt unchanged (IR: the action's arguments are the item variables).
-NOT proved: the two raw-capture loops Tokenizer.consume_macro_params / consume_with_macro_params (contracts ASSUMED: generator
-loops with optional locals are outside the executor's subset) -- bounded stand-in: argument texts from a pool x bracket nestings
-vs an independent bracket-aware splitter; block bodies; the statement after the macro.
+Tokenizer.consume_macro_params is verified from its body (E1): returned text == concatenation of the raw tokens pulled before the
+delimiter, span, delimiter is a real `,` / `)` OP token, `)` pushed back and flag cleared (four ghost preconditions ASSUMED at its
+call site, listed in the evidence).  NOT proved: bracket/string protection of commas (only the delimiter's token type is), and
+Tokenizer.consume_with_macro_params (contract ASSUMED) -- bounded stand-in: argument texts from a pool x bracket nestings vs an
+independent bracket-aware splitter; block bodies (multi-line tokens, comments, blank lines); the statement after the macro.
 """
 from __future__ import annotations
 
@@ -27,7 +29,11 @@ ARGS = ["x", "1 + 2", " spaced  out ", "if True: pass", "import os", "f(a, b)", 
         'f"{a},{b}"', 'f"({a})"', "f'{x!r:>{w}}, {y}'", 'p"a,b"', "b'x,y'", "[1,  # c , )\n 2]", "x := (1, 2)", "a -> b", "1_000.5e3j", "@(a, b)", "$[x , y]",
         "\'\'\'t,\nq\'\'\'", "f\'\'\'{a},\n{b}\'\'\'"]
 BODIES = ["a b c\n", "x = 1\ny = 2\n", "if x:\n    y\nelse:\n    z\n", "# only a comment\nstuff here\n", "deep:\n    deeper:\n        deepest\n", "'''str\nin body'''\n",
-          "echo $HOME | grep x\n", "def f():\n    return 1\n\n\nx = f()\n"]
+          "echo $HOME | grep x\n", "def f():\n    return 1\n\n\nx = f()\n",
+          # tokens that span lines and do not start their line; blank and comment lines anywhere in the body
+          'doc = """one\ntwo\nthree\nfour"""\ny = 1\n', "x = [1,\n  2,\n3]; s = '''a\n  b\n'''; t = 3\nz\n", "f(a,\n  '''q\nr''', b)\n", "\n# lead\n\na\n\n# mid\nb\n",
+          "s = 'a\\\nb'\nt\n", "if x:\n\ty\n", "a\n  b\n    c\n  d\ne\n"]
+ONELINE_MULTI = ['s = """a\nb"""', "x = [1,\n    2,\n    3]", "f('''p\nq\nr''', 2)"]
 
 
 def split_args(inner: str) -> list[str]:
@@ -124,6 +130,11 @@ def standin(rep: Report):
         ind = textwrap.indent(b, "    ")
         cases.append({"src": f"with! ctx:\n{ind}after = 1\n", "expect": [b], "kind": "with", "after": "after = 1\n"})
         cases.append({"src": f"if a:\n    with! ctx as c:\n{textwrap.indent(b, '        ')}    inner = 1\nouter = 2\n", "expect": [b], "kind": "with", "after": "outer = 2\n"})
+    for line in ONELINE_MULTI:
+        cases.append({"src": f"with! ctx: {line}\nnxt = 1\n", "expect": [" " + line + "\n"], "kind": "with", "after": "nxt = 1\n"})
+    for line in ["pass", "x=1", "a b c"]:            # no blank after the colon
+        cases.append({"src": f"with! ctx:{line}\nnxt = 1\n", "expect": [line + "\n"], "kind": "with", "after": "nxt = 1\n"})
+        cases.append({"src": f"y = 0\nwith! ctx as c:{line}\nf!(x, y)\nprint(x)\n", "expect": [line + "\n"], "kind": "with", "after": "print(x)\n"})
     for line in ["a b c", "echo 'x y'  z", "x = $(not parsed) |", "1 +", "if while: for"]:
         cases.append({"src": f"with! ctx: {line}\nnxt = 1\n", "expect": [" " + line + "\n"], "kind": "with", "after": "nxt = 1\n"})
     for rest in ["hello  world", "a   b\tc", "-x 'q  s' | grep   y", "if for  while", "x=1  y = 2"]:
@@ -148,7 +159,7 @@ def standin(rep: Report):
 
 def run(rep: Report):
     rep.trust("CPython ast", "engine/pegir", "engine/pyvc")
-    rep.assume("ASSUMED contracts of Tokenizer.consume_macro_params / consume_with_macro_params (raw-capture loops not verified from their bodies)",
+    rep.assume("ASSUMED contract of Tokenizer.consume_with_macro_params (raw-capture loop not verified from its body)",
                "tokens tile the source (C08): concatenating raw token strings, WS included, reproduces the source slice",
                "textwrap.dedent (external) removes the common leading whitespace")
     e1common.file_into(rep, "C07", rep.tier)
